@@ -78,6 +78,7 @@ func Run(sc Scenario, ch Chooser) *Outcome {
 		return out
 	}
 	base := runtime.NumGoroutine()
+	markLungoBase()
 	wo := WorldOptions{Sessions: sc.Sessions, NoSeed: sc.EmptyStart}
 	wo.Opts.MinOplogSize, wo.Opts.MaxOplogSize = sc.MinOplog, sc.MaxOplog
 	if sc.MaxOplog > 0 {
@@ -246,12 +247,21 @@ func monitorsC16(out *Outcome, c *Controller, w *World, base int) {
 	// (4) probe write
 	if o.Alive {
 		ctx, cancel := context.WithTimeout(context.Background(), time.Second)
-		cls := "panic"
-		func() {
-			defer func() { _ = recover() }()
+		res := make(chan string, 1)
+		go func() {
+			defer func() {
+				if recover() != nil {
+					res <- "panic"
+				}
+			}()
 			_, err := w.Client.Database("probe").Collection("p").InsertOne(ctx, bson.D{{Key: "x", Value: 1}})
-			cls = Classify(err)
+			res <- Classify(err)
 		}()
+		cls := "hang"
+		select {
+		case cls = <-res:
+		case <-time.After(1500 * time.Millisecond): // the call ignores its context: it hangs inside the engine
+		}
 		cancel()
 		if cls != "ok" {
 			wit := "wedged:" + sc.Kind
@@ -321,8 +331,8 @@ func monitorsC16(out *Outcome, c *Controller, w *World, base int) {
 			break
 		}
 		n := 0
-		for _, st := range allGoroutines() {
-			if strings.Contains(st.Stack, "github.com/256dpi/lungo") || strings.Contains(st.Stack, "tomb.v2") {
+		for id, st := range allGoroutines() {
+			if !lungoBase[id] && (strings.Contains(st.Stack, "github.com/256dpi/lungo") || strings.Contains(st.Stack, "tomb.v2")) {
 				n++
 				where = st.Wait + " " + firstLine(st.Stack)
 			}
@@ -383,6 +393,19 @@ func sortStrings(xs []string) {
 	for i := 1; i < len(xs); i++ {
 		for j := i; j > 0 && xs[j] < xs[j-1]; j-- {
 			xs[j], xs[j-1] = xs[j-1], xs[j]
+		}
+	}
+}
+
+// lungoBase: goroutines already inside lungo code when a scenario starts (leftovers of an earlier
+// scenario that wedged); they are not counted as leaks of the current one.
+var lungoBase = map[int64]bool{}
+
+func markLungoBase() {
+	lungoBase = map[int64]bool{}
+	for id, st := range allGoroutines() {
+		if strings.Contains(st.Stack, "github.com/256dpi/lungo") || strings.Contains(st.Stack, "tomb.v2") {
+			lungoBase[id] = true
 		}
 	}
 }
